@@ -112,6 +112,12 @@ def decorate(c, M):
                 args[an]["default"] = gen_const_value(c, M, ty(t), block=False)
         locs = c.shuffle(ALL_LOCATIONS)[: c.int(1, 5)]
         M["directives"]["cd%d" % i] = {"args": args, "locations": locs}
+        # apply it to some types where it is allowed (introspection does not show applied directives)
+        loc_of = {"OBJECT": "OBJECT", "INTERFACE": "INTERFACE", "UNION": "UNION", "ENUM": "ENUM", "INPUT": "INPUT_OBJECT", "SCALAR": "SCALAR"}
+        for tn, td in T.items():
+            if loc_of[td["kind"]] in locs and c.maybe(40):
+                dargs = [[an, gen_const_value(c, M, ty(ad["type"]), nullp=0, block=False)] for an, ad in args.items() if ty(ad["type"])[0] == "NN" or c.maybe(40)]
+                td.setdefault("dirs", []).append({"name": "cd%d" % i, "args": dargs})
     if c.maybe(8):
         M["schema_dirs"] = [{"name": "nonIntrospectable", "args": []}]
         M["explicit_schema"] = True
@@ -192,6 +198,9 @@ def split(c, M):
             mv = td["members"][c.int(1, len(td["members"]) - 1):]
             base["members"] = [v for v in td["members"] if v not in mv]
             exts.append({"kind": k, "members": mv})
+        if base.get("dirs") and c.maybe(50):
+            # type-level directives arrive through a directive-only extension
+            exts.append({"kind": k, "dirs": base.pop("dirs"), "fields": {}, "values": [], "members": []})
         pieces.append({"p": "type", "name": tn, "def": base})
         for e in exts:
             e.pop("desc", None)
@@ -289,7 +298,10 @@ def p_piece(st, piece):
     name = piece["name"]
     k = d["kind"]
     head = p_desc(st, d.get("desc")) if p == "type" else ""
-    dirs = p_dirs(d.get("dirs")) if p == "type" else ""
+    dirs = p_dirs(d.get("dirs"))
+    if p == "ext" and d.get("dirs") and not d.get("fields") and not d.get("values") and not d.get("members") and not d.get("interfaces"):
+        kw = {"SCALAR": "scalar", "ENUM": "enum", "UNION": "union", "INPUT": "input", "OBJECT": "type", "INTERFACE": "interface"}[k]
+        return "extend %s %s%s" % (kw, name, dirs)
     if k == "SCALAR":
         return head + "%sscalar %s%s" % (pre, name, dirs)
     if k == "ENUM":
